@@ -10,7 +10,9 @@ CONFIG = {'gen': ['SmbCommands'],
          'assignments (tie only). distinct = distinct line; non-trivial = the implementation produced a value In half of the smb.rt cases '
          'the bytes are decoded twice into the same command object (the second decode must show the second message only). smb.dialects: '
          'the Dialects list as a value of its own (identifiers with high bytes; half of the decodes into a used value): Marshal, '
-         'Unmarshal, compare with one 02 name 00 per identifier. In half of the encodings the byte-string fields of the structure are windows of ONE backing array (each with the capacity left behind it, in an order other than the append order), as Unmarshal hands them out.',
+         'Unmarshal, compare with one 02 name 00 per identifier. In half of the encodings the byte-string fields of the structure are '
+         'windows of ONE backing array (each with the capacity left behind it, in an order other than the append order), as Unmarshal '
+         'hands them out.',
  'assumptions': ['reflect-based field assignment in the harness sets exactly the exported fields of the command structure',
                  "the factories' constructors (New…() + Init()) give the initial field values passed to the model as env0"],
  'trusted': ['tools/extract/smb_commands.go (statement-by-statement translation of the 115 Marshal/Unmarshal bodies into the command IR; '
@@ -28,7 +30,7 @@ CONFIG = {'gen': ['SmbCommands'],
                'buffers; guards no larger than the reads they protect; every declared field on the wire; for the AndX commands the AndX '
                'block read from the head of the parameter stream and exactly its four bytes cut off before the first field: andx_consumed) '
                'and that the structural round-trip defects are exactly the 2 recorded ones (non_mirror_commands, known_roundtrip_findings, '
-               'command_count; thirteen more were repaired in the repository, fixes/C04-*.diff, and left the list). A nested value decoded '
+               'command_count; fourteen more were repaired in the repository, fixes/C04-*.diff, and left the list). A nested value decoded '
                'from the whole block right behind offset = 0 is read in the normal form blk[offset:] (normWhole; go_normWhole: the run is '
                'the same). The generic soundness theorem is proved for all field values: mirror_roundtrip (Mirror c -> LawfulCodecs C T -> '
                'consistent C c v -> decodeCmd (encodeCmd v) = ok d with every declared field, and the AndX block of an AndX command, equal '
@@ -43,15 +45,21 @@ CONFIG = {'gen': ['SmbCommands'],
                'last read without advance) is proved the same way: mirror_loops_roundtrip, mirror_loops_reencode (codec laws on the '
                "element types too; consistent asks list elements to be fixed points of their Marshal; receiverFits: the receiver's fixed "
                "arrays have the sender's length — nothing is asked about optional fields any more: optional_stale_reset, the former "
-               'optional_stale_counterexample), smb_loops_roundtrip / smb_loops_reencode for the 109 regenerated MirrorLoops commands, all '
+               'optional_stale_counterexample), smb_loops_roundtrip / smb_loops_reencode for the 110 regenerated MirrorLoops commands, all '
                '16 AndX commands among them (loop_mirror_commands: LockAndReadResponse, LockingAndxRequest, OpenAndxRequest, '
-               'OpenAndxResponse, QueryInformationResponse, ReadRawRequest, SessionSetupAndxRequest, SessionSetupAndxResponse, '
-               'TransactionRequest, WriteAndCloseRequest, WriteAndxRequest, WriteMpxRequest, WriteRawRequest; mirror_loops_extends; '
-               'mirror_loops_types_lawful). For the 6 commands outside (non_mirror_loops_commands: FindResponse / FindUniqueResponse with '
-               'the recorded 43-byte window, NegotiateRequest — Dialects reads to the end of its input —, NegotiateResponse — '
-               'null-terminated strings —, RenameRequest — unchecked decode —, WriteRequest) the round trip is decided by the '
-               'correspondence runs only. slot_locality reads the layout through layoutZ (literal terminator bytes in the data block '
-               'passed over, a range loop over an integer array one slot of variable width), 224 command/field pairs.',
+               "OpenAndxResponse, QueryInformationResponse, ReadRawRequest, RenameRequest — a nested read through a window of the type's "
+               'fixed size whose error and count are dropped, offset moved by the window; rename_request_unchecked_decode_total: that '
+               'decode cannot fail —, SessionSetupAndxRequest, SessionSetupAndxResponse, TransactionRequest, WriteAndCloseRequest, '
+               'WriteAndxRequest, WriteMpxRequest, WriteRawRequest; mirror_loops_extends; mirror_loops_types_lawful). For the 5 commands '
+               'outside (non_mirror_loops_commands: FindResponse / FindUniqueResponse with the recorded 43-byte window, NegotiateRequest — '
+               'Dialects reads to the end of its input; proved for this one program with the statement of mirror_loops_roundtrip: '
+               'negotiate_request_roundtrip, Props/C04/Direct.lean —, NegotiateResponse — null-terminated strings —, WriteRequest — '
+               'repaired: Marshal put the marshalled Data ahead of the parameter block, which consistent used to hide by asking that '
+               'nothing precede it (fixes/C04-writerequest-data-block.diff); Unmarshal decodes Data with error and count dropped behind a '
+               'guard the type does not size; proved for this one program: write_request_roundtrip —) only NegotiateResponse and the two '
+               'recorded findings rest on the correspondence runs alone. slot_locality reads the layout through layoutZ (literal '
+               'terminator bytes in the data block passed over, a range loop over an integer array one slot of variable width), 228 '
+               'command/field pairs.',
  'level_note': 'Trusted: Lean kernel; axioms propext, Classical.choice, Quot.sound; the extractor and the IR semantics are tied to the Go '
                'code by differential testing (bounded); C06 models of nested types; known findings are recognised by Lean predicates on '
                'the extracted programs, one key per command.'}
